@@ -47,6 +47,27 @@ pub mod builder;
 pub mod delivery;
 mod error;
 mod incomplete_transfer;
+
+/// An `IncompleteTransfer` as the first frame of a delivery leaves it (verification hook)
+#[cfg(fe2o3_amqp_verif)]
+pub(crate) fn verif_incomplete_transfer(
+    first_payload: crate::Payload,
+) -> incomplete_transfer::IncompleteTransfer {
+    let transfer = fe2o3_amqp_types::performatives::Transfer {
+        handle: 0.into(),
+        delivery_id: Some(0),
+        delivery_tag: Some(vec![0u8].into()),
+        message_format: Some(0),
+        settled: None,
+        more: true,
+        rcv_settle_mode: None,
+        state: None,
+        resume: false,
+        aborted: false,
+        batchable: false,
+    };
+    incomplete_transfer::IncompleteTransfer::new(transfer, first_payload)
+}
 pub mod receiver;
 mod receiver_link;
 pub(crate) mod resumption;
